@@ -169,7 +169,7 @@ Derive == /\ e.ev = "derive" /\ Common
 
 Collect == /\ e.ev = "collect" /\ Common /\ Pass
 
-Other == /\ e.ev \in {"end", "panic", "hang", "mutate", "args", "note", "crash", "fault", "corrupt", "shape", "names", "xput", "xdel", "xflush"} /\ Common /\ Pass
+Other == /\ e.ev \in {"end", "panic", "hang", "mutate", "args", "note", "crash", "fault", "corrupt", "shape", "names", "xput", "xdel", "xflush", "repair"} /\ Common /\ Pass
 
 \* FlushAll / FlushAllAndCommit / Commit
 FlushEv == /\ e.ev = "flush" /\ Common
@@ -374,8 +374,12 @@ Conf_C01 ==
   /\ E.ev = "obs" => ReadsOK(E, store)
   /\ (E.ev = "put" /\ E.c = "ok") => (E.kept /\ E.fresh)
   /\ E.ev = "many" => \A i \in 1..E.n : "after" \in DOMAIN E.batch[i] => (E.batch[i].kept /\ E.batch[i].fresh)
+  \* an object that already has an identifier keeps it whatever the outcome of the call (accepted, refused, failed)
+  /\ E.ev = "put" => E.kept
+  /\ E.ev = "many" => \A i \in 1..Len(E.batch) : "kept" \in DOMAIN E.batch[i] => E.batch[i].kept
   /\ E.ev \in {"del", "delall"} => E.c = "ok"
   /\ E.ev = "hdr" => E.c = "ok"
+  /\ E.ev = "repair" => E.c = "ok"            \* Repair on a live handle in order: succeeds (and changes nothing: the sweeps that follow)
 
 \* C02 search = exactly the matches (judged against the same sweep's own listing)
 Conf_C02 ==
